@@ -99,7 +99,9 @@ func (dl DecodingLayerSparse) LayersDecoder(first LayerType, df DecodeFeedback) 
 
 // Decoder implements DecodingLayerContainer interface.
 func (dl DecodingLayerSparse) Decoder(typ LayerType) (DecodingLayer, bool) {
-	if int64(typ) < int64(len(dl)) {
+	// Negative layer types are legal (see RegisterLayerType) but can never be
+	// stored in a DecodingLayerSparse.
+	if 0 <= typ && int64(typ) < int64(len(dl)) {
 		decoder := dl[typ]
 		return decoder, decoder != nil
 	}
